@@ -161,6 +161,7 @@ def run_history(ctx, out: common.Outcome, model_key: str, nsteps: int, observers
     # model is garbage collected, so a handle of an earlier history could be taken for an "outdated second handle"
     objops._HANDLES.clear()
     objops._INTER_CACHE.clear()
+    objops._EQ_OWNERS.clear()
     model = model or ol.load(ctx, model_key)
     loader = model._loader
     rels = objops.discover(model, rng, max_objs=ctx.pick(250, 600))
